@@ -33,11 +33,13 @@ Definition g_count0 (li : layer_info) : bool :=
 Definition g_blocks_present (l : lami) : bool :=
   match la_info l with Some _ => is_some (la_blocks l) | None => true end.
 
-(* F-C02-3 = Model.glmi_guard: an empty GlobalLayerMaskInfo needs 17 readable bytes after the layer info *)
+(* F-C02-3 (FIXED by /repo f3a2729; was Model.glmi_guard: an empty GlobalLayerMaskInfo needed 17 readable bytes after
+   the layer info).  The reader now looks for the 4-byte length inside the section: no guard any more; the pre-fix
+   reader is Psd/Legacy.v (Properties/C02.v resave_refuted_before_f3a2729). *)
 
-(* F-C02-4: tagged blocks without a global layer mask info (the reader skipped the probe because
-   fewer than 17 bytes were left in the file); re-saving pads the blocks, the probe succeeds and
-   the first block is taken for a GlobalLayerMaskInfo *)
+(* F-C02-4: tagged blocks without a global layer mask info.  Before f3a2729 the reader produced this whenever fewer
+   than 17 bytes were left in the file, and the re-saved file was unreadable; since f3a2729 the reader cannot produce
+   it from a byte string any more ([glmi_before_blocks_reached], ResaveProofs.v): not a hypothesis of the theorems *)
 Definition g_glmi_before_blocks (l : lami) : bool :=
   is_some (la_glmi l) || negb (truthy (la_blocks l)).
 
@@ -50,13 +52,15 @@ Definition g_masks (li : layer_info) : bool :=
 
 Definition g_li (li : layer_info) : bool := g_count0 li && g_masks li.
 
-(* [restlen]: the number of bytes after the section in the file that will be written *)
-Definition lami_guard (v : Z) (l : lami) (restlen : Z) : bool :=
+(* the conjunction used by the per-section lemmas: F1, F5 (layer info), F2, F4 *)
+Definition lami_guard (l : lami) : bool :=
   match la_info l with Some li => g_li li | None => true end &&
-  g_blocks_present l && glmi_guard v l restlen && g_glmi_before_blocks l.
+  g_blocks_present l && g_glmi_before_blocks l.
+Definition resave_guard_full (d : psd) : bool := lami_guard (p_lami d).
 
+(* the hypothesis of the C02 theorems: F1, F2, F5 only - for a byte string, the reader never produces the F4 class *)
 Definition resave_guard (d : psd) : bool :=
-  lami_guard (h_version (p_header d)) (p_lami d) (2 + len (cd_data (p_img d))).
+  match la_info (p_lami d) with Some li => g_li li | None => true end && g_blocks_present (p_lami d).
 
 (* ------------------------------------------------------------------ what the writer needs *)
 Section Resave.
@@ -190,7 +194,7 @@ Section ReaderPy.
 
   Definition read_lami_body_py (total v : Z) (s : stream) (length : Z) : res lami :=
     do (li, s2) <- read_layer_info_py total v s;
-    do (g, s3) <- r_opt (is_readable glmi_probe s2 && (len s - len s2 <? length)) read_glmi s2;
+    do (g, s3) <- r_opt (is_readable glmi_probe s2 && (len s - len s2 + glmi_probe <=? length)) read_glmi s2;
     do tb <- (if is_readable 1 s3 then
                 do (bs, _) <- read_tagged_blocks_py v 4 (Some (length - (len s - len s3))) s3; Ok (Some bs)
               else Ok None);
@@ -214,14 +218,12 @@ End ReaderPy.
 (* ------------------------------------------------------------------ the pipeline as a function *)
 Definition b2l (b : bool) : Z := if b then 1 else 0.
 
-(* guard broken down: bit 0 F1, bit 1 F2, bit 2 F3, bit 3 F4, bit 4 F5 (set = the guard FAILS) *)
+(* guard broken down: bit 0 F1, bit 1 F2, (bit 2 was F3: fixed), bit 3 F4 (unreachable since f3a2729; still reported),
+   bit 4 F5 (set = the guard FAILS) *)
 Definition guard_bits (d : psd) : Z :=
   let l := p_lami d in
-  let v := h_version (p_header d) in
-  let rest := 2 + len (cd_data (p_img d)) in
   b2l (negb (match la_info l with Some li => g_count0 li | None => true end)) +
   2 * b2l (negb (g_blocks_present l)) +
-  4 * b2l (negb (glmi_guard v l rest)) +
   8 * b2l (negb (g_glmi_before_blocks l)) +
   16 * b2l (negb (match la_info l with Some li => g_masks li | None => true end)).
 
